@@ -3,6 +3,7 @@ from __future__ import annotations
 
 import ast
 import itertools
+import re
 from typing import Any, Dict, List, Optional, Set, Tuple
 
 from ..cfg import NORMAL, Node, handler_classes
@@ -1011,9 +1012,60 @@ def check(ctx: Ctx) -> None:
     # ... and only if the name -> id mapping used for the lookup is the current one: the read path keeps no memo
     from .c02 import r6 as c02_r6
     ctx.shared(c02_r6, "C02.R6", "C13.R8", "a remembered schema looks bounds up under another column's id")
+    from .common import no_shared_mutable_class_state
+    no_shared_mutable_class_state(ctx, "C13.R12", "the bounds collected for one data file would be stored on every file written by the "
+                                  "same process, and files are pruned by another file's minimum / maximum")
+    per_entry_scratch_is_per_entry(ctx, "C13.R13")
     # pruning compares the LITERAL with the bounds: the row filter must compare the same way, or the answer depends on pruning
     from .c12 import membership_compares_like_equality
     membership_compares_like_equality(ctx, "C13.R10")
     # the pruning rules (R1 / R2) were derived for the row filter's NULL semantics: NULL never matches a comparison
     from .c12 import r3 as c12_r3
     ctx.shared(c12_r3, "C12.R3", "C13.R11", "the pruning rules assume the row filter's NULL semantics")
+
+
+def per_entry_scratch_is_per_entry(ctx: Ctx, rid: str) -> None:
+    ctx.rule(rid, "a manifest entry's statistics come from that entry alone: in the record loops of read_manifest_file / "
+             "read_manifest_list_file a scratch collection that is filled inside the loop (`stats[k] = ...`) is created inside the "
+             "loop - one created before the loop carries the previous entry's bounds over to an entry that has none (only the "
+             "returned accumulator outlives an iteration)", 1)
+    MUT = ("update", "setdefault", "add", "append", "extend")
+    n_loops = 0
+    for q in ("file_manager.FileManager.read_manifest_file", "file_manager.FileManager.read_manifest_list_file"):
+        f = ctx.fn(q)
+        g = ctx.cfg(f)
+        rd = ctx.rd(f)
+        rets: Set[str] = set()
+        for r in g.nodes:
+            if r.kind == "return" and r.ast is not None and getattr(r.ast, "value", None) is not None:
+                rets |= set(names_in(r.ast.value))  # type: ignore[union-attr]
+        for lp in [l for l in g.nodes if l.kind == "loop" and isinstance(l.ast, ast.For) and l.id in g.reachable()
+                   and not any(fr.kind == "loop" for fr in l.frames)]:
+            inside = {n.id for n in g.nodes if any(fr.kind == "loop" and fr.node is lp.ast for fr in n.frames)}
+            # only the outermost record loops matter: a loop nested in another is covered by the outer one's own check
+            n_loops += 1
+            for n in [x for x in g.nodes if x.id in inside and x.ast is not None and x.kind in ("stmt", "call")]:
+                names: Set[str] = set()
+                if n.kind == "stmt" and isinstance(n.ast, (ast.Assign, ast.AugAssign)):
+                    tg = n.ast.targets if isinstance(n.ast, ast.Assign) else [n.ast.target]
+                    names |= {t.value.id for t in tg if isinstance(t, ast.Subscript) and isinstance(t.value, ast.Name)}
+                if n.kind == "call" and isinstance(n.ast, ast.Call) and isinstance(n.ast.func, ast.Attribute) and n.ast.func.attr in MUT \
+                        and isinstance(n.ast.func.value, ast.Name):
+                    names.add(n.ast.func.value.id)
+                for nm in sorted(names - rets):
+                    base = re.sub(r"__i\d+$", "", nm)
+                    if base in rets:
+                        continue
+                    defs = rd.reaching(n.id, nm)
+                    outside = [d for d in defs if d not in inside and d != g.entry]
+                    if not outside:
+                        continue
+                    # the definition outside the loop creates a collection (a display / constructor), and the collection's
+                    # content reaches a record built in the loop
+                    dn = g.nodes[outside[0]]
+                    ctx.ob(rid, f, f"`{nm}` is created per entry", n, False,
+                           f"`{n.text[:50]}` fills `{nm}`, which is created at {f.file}:{dn.lineno} BEFORE `{lp.text[:40]}`: what one entry "
+                           "stored is still there for the next - an entry without bounds is given (and pruned by) its predecessor's",
+                           text=f"{f.name}:{nm}")
+    ctx.ob(rid, ctx.fn("file_manager.FileManager.read_manifest_file"), "record loops examined", None, n_loops >= 2, f"{n_loops} loops",
+           nontrivial=False, text="loops")
